@@ -423,7 +423,7 @@ CHECKS["C07"] = dict(
           "makeFeasible()+run(), runOnce()xk and ConstrainedMajorizationLayout::run(); overlap avoidance and neighbour stress on/off. Every constraint is re-evaluated by an independent "
           "evaluator on the final rectangle centres; it is excused only if an UnsatisfiableConstraintInfo naming that compound constraint was delivered. "
           "non-trivial = some constraint is violated by the initial placement"),
-    workloads=[dict(harness="c07_cola", mode="constraints", quick=20000, thorough=800000, watchdog=30, san_thorough=3000)],
+    workloads=[dict(harness="c07_cola", mode="constraints", quick=40000, thorough=800000, watchdog=30, san_thorough=3000)],
     min_nontrivial=dict(quick=1500, thorough=30000),
     max_inconclusive=0.03,
     require_obs=["constraints_checked.separation", "constraints_checked.alignment", "constraints_checked.boundary", "constraints_checked.fixed-relative", "layouts_reporting_unsatisfiable"],
